@@ -5,6 +5,7 @@ import (
 	"github.com/brutella/hc/crypto"
 	"github.com/brutella/hc/log"
 	"net"
+	"sync"
 	"time"
 
 	"bufio"
@@ -26,6 +27,11 @@ type Connection struct {
 
 	// Used to buffer reads
 	readBuffer io.Reader
+
+	// Serializes writers: a frame's counter is taken when it is sealed, so sealing and
+	// writing to the socket must not interleave between goroutines (responses, event
+	// notifications and keep-alives write concurrently).
+	writeMutex sync.Mutex
 
 	// Buffers the encrypted bytes read from the connection. It lives as long as the
 	// connection so that bytes which were read ahead (the next frame, or the first part of
@@ -134,6 +140,9 @@ func (con *Connection) decryptNextFrame() (io.Reader, error) {
 // Write writes bytes to the connection.
 // The written bytes are encrypted when possible.
 func (con *Connection) Write(b []byte) (int, error) {
+	con.writeMutex.Lock()
+	defer con.writeMutex.Unlock()
+
 	if con.getEncrypter() != nil {
 		return con.EncryptedWrite(b)
 	}
